@@ -255,7 +255,7 @@ def coq_mismatches(prop, runner, terms, shard=400, header="From Coq Require Impo
     shards = [(prop, k, runner, terms[i:i + shard], header) for k, i in enumerate(range(0, len(terms), shard))]
     res = []
     t0 = time.time()
-    with concurrent.futures.ThreadPoolExecutor(max_workers=12) as ex:
+    with concurrent.futures.ThreadPoolExecutor(max_workers=int(os.environ.get("VERIF_COQ_WORKERS", "8"))) as ex:
         for k, idx, out, secs in ex.map(_run_shard, shards):
             if idx is None:
                 return None, out, time.time() - t0
